@@ -185,7 +185,11 @@ func verifH_C11_offlinerace() {
 	r1, r2, r3, r4 := false, false, false, false
 	var e2, e3 error
 	go func() { c.Publish(nil, []byte{'x'}, "a"); r1 = true }()
-	go func() { e2 = c.Subscribe(nil, "s"); r2 = true }()
+	if verifParam("sub", 1) == 1 {
+		go func() { e2 = c.Subscribe(nil, "s"); r2 = true }()
+	} else {
+		e2, r2 = ErrDown, true
+	}
 	if verifParam("ping", 0) == 1 {
 		go func() { e3 = c.Ping(nil); r3 = true }()
 	} else {
